@@ -1,6 +1,8 @@
 """C03 — serialise then parse gives back the same RDF graph, in every syntax.  DESIGN §6 C03.
 
-Case = {"spec": <graphgen Spec>, "fmts": [format…] (optional, default all eight)}
+Case = {"spec": <graphgen Spec>, "fmts": [format…] (optional, default all eight),
+        "opts": {fmt: {serializer keyword: value}} (optional; gen_options: every keyword the serializers read),
+        "round2": {…} (optional; graphgen.gen_round2)}
 
 Property oracle (on the implementation only, independent of Lean and of rdflib.compare):
     for every format F that can express the graph:
@@ -59,7 +61,9 @@ XSD_STRING = URIRef(gg.XSD + "string")
 
 RULE = ("random RDF graphs from harness/graphgen.py (IRIs over 7 namespaces, blank-node trees/DAGs/cycles/unreferenced "
         "nodes, proper and malformed rdf:List structures, literals from a hostile character pool, 45 datatypes with valid "
-        "and invalid lexical forms, language tags) x options (base, bound/unbound prefixes) x 8 formats; non-trivial = "
+        "and invalid lexical forms, language tags) x options (base incl. IRIs under the base with tricky remainders, bound/unbound "
+        "prefixes, every serializer keyword: spacious, canon, xml_base, max_depth, auto_compact, context, use_native_types, "
+        "use_rdf_type, sort_keys, indent, separators, ensure_ascii; 15% two-round cases with a prefix re-bound) x 8 formats; non-trivial = "
         "the graph is non-empty and at least 6 formats were actually round-tripped; distinct = distinct (graph, options)")
 ASSUMPTIONS = [
     "literals are built through rdflib's default constructor (rdflib.NORMALIZE_LITERALS = True): lexical normalisation of "
@@ -121,10 +125,12 @@ def _describe_diff(a, b):
             + ("" if lost or added else " (blank-node structure differs)"))
 
 
-def roundtrip(g, fmt, base, orig=None):
-    """-> (status, detail, text)   status in ok | rt | ser | parse | hang"""
+def roundtrip(g, fmt, base, orig=None, opts=None):
+    """-> (status, detail, text)   status in ok | rt | ser | parse | hang;  `opts` = extra serializer keywords"""
     orig = set(g) if orig is None else orig
-    kw = {}
+    kw = dict(opts or {})
+    if "separators" in kw:
+        kw["separators"] = tuple(kw["separators"])
     if base is not None:
         kw["base"] = base
     try:
@@ -462,15 +468,18 @@ def run_impl(case):
         if fmt in ("xml", "pretty-xml") and not xml_ok:
             stats["skip_xml_inexpressible"] = stats.get("skip_xml_inexpressible", 0) + 1
             continue
-        st, detail, _text = roundtrip(g, fmt, spec.get("base"), orig)
+        fopts = (case.get("opts") or {}).get(fmt)
+        st, detail, _text = roundtrip(g, fmt, spec.get("base"), orig, fopts)
         stats[f"{st}_{fmt}"] = stats.get(f"{st}_{fmt}", 0) + 1
+        for k in (fopts or {}):
+            stats[f"opt_{fmt}_{k}"] = stats.get(f"opt_{fmt}_{k}", 0) + 1
         if st == "ok":
             done += 1
         else:
-            viol.append(f"{st}-{fmt}: {detail}")
+            viol.append(f"{st}-{fmt}: " + (f"[options {json.dumps(fopts, sort_keys=True)}] " if fopts else "") + detail)
     r2 = case.get("round2")
     if r2:
-        viol += _round2(g, spec, r2, fmts, stats)
+        viol += _round2(g, spec, r2, fmts, stats, case.get("opts") or {})
     probe = _probe(spec) + _hext_probe(spec) + _ntline_probe(spec)
     sprobe = _struct_probe(spec)
     obs = [exp for _l, exp, _p in probe] + [exp for _l, exp in sprobe]
@@ -487,7 +496,7 @@ def run_impl(case):
     return {"obs": obs, "viol": viol, "nontrivial": bool(orig) and done >= min(6, len(fmts)), "key": key, "stats": stats}
 
 
-def _round2(g, spec, r2, fmts, stats):
+def _round2(g, spec, r2, fmts, stats, opts):
     """Second round on the SAME graph object: re-bind a prefix that the first round generated (ns1, ns2, …) or that
     the case bound itself and that some IRI of the graph uses, to another namespace; add a triple whose predicate
     lives there; serialise and parse again in every format.  Both rounds must round-trip (tags rt2-/ser2-/parse2-/hang2-)."""
@@ -516,7 +525,7 @@ def _round2(g, spec, r2, fmts, stats):
     for fmt in fmts:
         if fmt in ("xml", "pretty-xml") and not xml_ok:
             continue
-        st, detail, _text = roundtrip(g, fmt, spec.get("base"), orig2)
+        st, detail, _text = roundtrip(g, fmt, spec.get("base"), orig2, opts.get(fmt))
         stats[f"{st}2_{fmt}"] = stats.get(f"{st}2_{fmt}", 0) + 1
         if st != "ok":
             out.append(f"{st}2-{fmt}: after re-binding prefix {prefix!r} to <{r2['ns']}> ({r2['mode']}): {detail}")
@@ -530,7 +539,70 @@ def gen_case(rng, tier, i):
     case = {"spec": gg.gen_spec(rng, profile=profile, lists=lists)}
     if rng.random() < 0.15:
         case["round2"] = gg.gen_round2(rng, case["spec"])
+    if rng.random() < 0.55:
+        opts = gen_options(rng, case["spec"])
+        if opts:
+            case["opts"] = opts
     return case
+
+
+def gen_options(rng, spec):
+    """Serializer keyword options, per format — every option the anchored serializers read from **kwargs
+    (nt, hext: none).  -> {fmt: {keyword: JSON value}}"""
+    o = {}
+
+    def some(p):
+        return rng.random() < p
+
+    for fmt in ("turtle", "n3"):
+        if some(0.3):
+            o[fmt] = {"spacious": True}
+    lt = {}
+    if some(0.45):
+        lt["canon"] = True
+    if some(0.2):
+        lt["spacious"] = True
+    if lt:
+        o["longturtle"] = lt
+    for fmt in ("xml", "pretty-xml"):
+        x = {}
+        if spec.get("base") is None and some(0.2):
+            x["xml_base"] = rng.choice(["http://ex.org/a/", "http://example.org/doc/x", "http://ex.org/q?x=1&y=2"])
+        if fmt == "pretty-xml" and some(0.45):
+            x["max_depth"] = rng.choice([1, 1, 2, 5, 8, 50])
+        if x:
+            o[fmt] = x
+    j = {}
+    if some(0.3):
+        j["auto_compact"] = True
+    elif some(0.2):
+        ctx = {}
+        for pfx, ns in rng.sample(_CTX_PREFIXES, rng.randint(1, 3)):
+            ctx[pfx] = ns
+        if some(0.3):
+            ctx["@vocab"] = rng.choice(gg.NAMESPACES[:3])
+        if some(0.2):
+            ctx["@language"] = "en"
+        j["context"] = ctx
+    if some(0.2):
+        j["use_native_types"] = rng.choice([True, False])
+    if some(0.2):
+        j["use_rdf_type"] = True
+    if some(0.15):
+        j["sort_keys"] = False
+    if some(0.15):
+        j["indent"] = rng.choice([None, 4])
+    if some(0.1):
+        j["separators"] = [",", ":"]
+    if some(0.15):
+        j["ensure_ascii"] = True
+    if j:
+        o["json-ld"] = j
+    return o
+
+
+_CTX_PREFIXES = [["ex", gg.NAMESPACES[0]], ["a", gg.NAMESPACES[1]], ["b", gg.NAMESPACES[2]], ["xsd", gg.XSD], ["rdf", gg.RDF],
+                 ["rdfs", gg.RDFS], ["dot", gg.NAMESPACES[4]], ["u", gg.NAMESPACES[3]]]
 
 
 def model_lines(case):
@@ -557,6 +629,13 @@ def select_model_obs(case, out):
 def shrink(case):
     if case.get("round2"):
         yield {k: v for k, v in case.items() if k != "round2"}
+    if case.get("opts"):
+        yield {k: v for k, v in case.items() if k != "opts"}
+        for f, kw in case["opts"].items():
+            yield {**case, "opts": {f: kw}}
+            for k in kw:
+                if len(kw) > 1:
+                    yield {**case, "opts": {**case["opts"], f: {x: y for x, y in kw.items() if x != k}}}
     fm = case.get("fmts") or FORMATS
     if len(fm) > 1:
         for f in fm:
